@@ -16,3 +16,15 @@ CONTENT_WORDS = ["0000-0002-9079-593X", "https://orcid.org/0000-0002-9079-593X",
                  "\\u0041", "line one\r\nline two", "p > 0.05 -> x[i[1]]>0", "a && b < c", "1.0", "00", "007", "+5", "1e3", " 2", "1_0", "true", "NaN", "-9999", "NA", "n/a", "unknown", "CC0", "CC-BY 4.0"]
 
 TITLE_LANGS = ["zh", "zh-Hans", "ja", "ja-JP", "th", "en", "fr-CA", "", "x-klingon"]
+
+
+# attributes in the combinations real documents carry them in
+ATTRIBUTE_COMBOS = [
+    {"id": "creator.1", "scope": "document"}, {"id": "creator.1", "scope": "system"}, {"id": "knb.1.1", "scope": "system", "system": "knb"},
+    {"id": "x", "system": "https://pasta.edirepository.org"}, {"scope": "document"}, {"id": "", "scope": "document"},
+    {"packageId": "edi.1.1", "system": "https://pasta.edirepository.org", "scope": "system"}, {"enforced": "no"}, {"enforced": "yes", "exclusive": "true"},
+    {"typeSystem": "http://www.w3.org/2001/XMLSchema-datatypes", "id": "t1"}, {"function": "download"}, {"function": "information", "id": "u"},
+    {"phonetype": "voice"}, {"phonetype": "facsimile", "id": "p"}, {"lang": "en", "id": "title.1"}, {"directory": "https://orcid.org", "id": "o"},
+    {"authSystem": "knb", "order": "allowFirst", "scope": "document", "id": "access.1"}, {"references": "x", "id": "x"},
+    {"keywordType": "theme", "id": "k"}, {"unit": "meter", "precision": "0.1"}, {"exponent": "2", "id": "e"}, {"name": "n", "id": "n", "scope": "document"},
+]
